@@ -2331,9 +2331,8 @@ class Scene:
             # Get current state
             v0, w0, p0, q0 = self._airplanes[aircraft_name].get_state()
 
-            # Transform velocity to body-fixed
-            v_wind = self._get_wind(p0)
-            v_body = quat_trans(q0, v0-v_wind)
+            # Transform velocity to body-fixed (set_state() takes a velocity vector relative to the Earth, expressed in body axes)
+            v_body = quat_trans(q0, v0)
 
             # Parse original state
             orig_state = {
